@@ -47,7 +47,12 @@ class PyKbd:
         self.h._matrix = self.m
         self.h._last_kol = self.m.kol
         self.h._last_koh = self.m.koh
+        # another keyboard in the same process, of the OPPOSITE column polarity and with other thresholds: it sees every strobe
+        # value first and holds other keys - whatever it leaves behind (module- or class-level state) must not reach self.m
+        self.decoy = KeyboardMatrix(columns_active_high=not high, press_threshold=1, release_threshold=1, repeat_delay=2, repeat_interval=1)
         self.names = _names()
+        for nm in list(self.names.values())[:3]:
+            self.decoy.press_key(nm)
         self.captured: List[Any] = []
         orig = self.m.scan_tick
 
@@ -74,8 +79,10 @@ class PyKbd:
         elif ev == "Release":
             self.h.release_key(self.names[a["k"]])
         elif ev == "WriteKOL":
+            self.decoy.write_kol(a["v"]); self.decoy.read_kil(); self.decoy.scan_tick()
             self.h.handle_register_write(0xF0, a["v"])
         elif ev == "WriteKOH":
+            self.decoy.write_koh(a["v"] & 0x0F); self.decoy.read_kil(); self.decoy.scan_tick()
             self.h.handle_register_write(0xF1, a["v"])
         elif ev == "Tick":
             self.h.scan_tick()
